@@ -131,6 +131,7 @@ func isRoundImagesAppend(f *types.Func) bool {
 
 func checkC03(r *core.Run) {
 	r.Explain = "Decided statically: (C03.pure) no function of a live AT executor consults package-level state that request paths mutate (lock keys and images depend on the statement and the rows only); (C03.everyexec) every live AT executor that appends images to the transaction context reaches its append only through the nil-error edge of an image step that stores a lock key built by the lock-key builder from the image it returns, on every path that returns a non-nil image; (C03.format) all lock-key builders use exactly ':' after the table, '_' between key parts, ',' between rows and take the key order from TableMeta.GetPrimaryKeyOnlyName, and the register step joins keys with ';'; (C03.sendall) the register step loops over all collected lock keys without break/continue/return and stores the joined text into BranchRegisterParam.LockKeys before BranchRegister, guarded only by the AT-mode test; (C03.sfu) the select-for-update executor returns rows only after LockQuery answered (true,nil) and rolls back (savepoint or transaction) before returning an error once the business query ran. NOT decided: that the key set equals the rows the statement really changed (database effects), key text for every value type, interleavings of two transactions."
+	r.Explain += " Round 8: (C03.format, also) the table-metadata refresh stores each reloaded entry under the upper-cased table name the entry itself carries, and no slice of parser-AST nodes (the image query's field list) is appended to inside a range over a map — the column order of an image query is fixed."
 	r.Trusted = []string{"go/types, go/cfg", "CHA over repository types"}
 	w := r.W
 	fld := lockKeysField(w)
@@ -153,6 +154,7 @@ func checkC03(r *core.Run) {
 		// asked the loader for: the cache must load an entry under its own (normalised) key, otherwise the key text
 		// of one row depends on how the statement that happened to fill the entry spelled the table
 		c03MetaKey(r)
+		c03FixedOrder(r)
 		// the combined image query of a multi-statement decides the lock keys as well
 		c18Sticky(r, live, "C03.sticky")
 		r.Floor("C03.sticky", 1)
@@ -804,6 +806,68 @@ func c03SendAll(r *core.Run, fld *types.Var) {
 	}
 }
 
+// c03FixedOrder (C03.format): the columns of an image query come in a fixed order — the lock-key builders write the
+// key parts in image-column order, so the same row must yield the same column order whatever statement touched it.
+// No list of statement-AST nodes (select fields, by-items, expressions of the image SELECT) is appended to inside a
+// loop over a map: Go's map iteration order differs from run to run.
+func c03FixedOrder(r *core.Run) {
+	w := r.W
+	_, live := liveATExecutors(w)
+	var roots []*core.FuncInfo
+	for _, t := range live {
+		roots = append(roots, methodInfo(w, t, "ExecContext"))
+	}
+	n := 0
+	for _, f := range reachFrom(w, roots, pExecAT) {
+		if w.IsTestFile(f.Decl.Pos()) || f.Decl.Body == nil {
+			continue
+		}
+		info := f.Pkg.TypesInfo
+		ast.Inspect(f.Decl.Body, func(nd ast.Node) bool {
+			as, ok := nd.(*ast.AssignStmt)
+			if !ok || len(as.Rhs) != 1 {
+				return true
+			}
+			c, ok := ast.Unparen(as.Rhs[0]).(*ast.CallExpr)
+			if !ok || len(c.Args) < 2 {
+				return true
+			}
+			if id, ok := ast.Unparen(c.Fun).(*ast.Ident); !ok || id.Name != "append" {
+				return true
+			}
+			sl, ok := info.TypeOf(c.Args[0]).Underlying().(*types.Slice)
+			if !ok {
+				return true
+			}
+			el := sl.Elem()
+			if p, isP := el.(*types.Pointer); isP {
+				el = p.Elem()
+			}
+			nt, ok := el.(*types.Named)
+			if !ok || nt.Obj().Pkg() == nil || nt.Obj().Pkg().Path() != pParserAST {
+				return true
+			}
+			n++
+			r.Sites++
+			r.Fn(f)
+			overMap := ""
+			for _, anc := range enclosing(f.Decl.Body, as) {
+				if rs, isR := anc.(*ast.RangeStmt); isR && as.Pos() >= rs.Body.Pos() && as.End() <= rs.Body.End() {
+					if _, isMap := info.TypeOf(rs.X).Underlying().(*types.Map); isMap {
+						overMap = core.ExprString(rs.X)
+					}
+				}
+			}
+			r.Check(overMap == "", "C03.format", core.ShortKey(f.Obj)+" : "+core.ExprString(c.Args[0])+" is built in a fixed order", w.Pos(as.Pos()), "not appended to inside a loop over a map",
+				"the list "+core.ExprString(c.Args[0])+" of the image query is appended to while ranging over the map "+overMap+": the column order changes from run to run, and with it the order of the key parts in the lock key — one row gets the keys 't:1_a' and 't:a_1', which the coordinator takes for two rows")
+			return true
+		})
+	}
+	if n == 0 {
+		r.Undecided("C03.format", "lists of statement-AST nodes built by the AT executors", "", "none found")
+	}
+}
+
 // modeTestOnly: cond compares a TransactionMode / BranchType value with a named constant.
 func modeTestOnly(info *types.Info, cond ast.Expr) bool {
 	return modeTestOnlyIn(nil, info, cond)
@@ -1145,6 +1209,81 @@ func c03MetaKey(r *core.Run) {
 					loadPos = x.Pos()
 				}
 			}
+			return true
+		})
+	}
+	// the other writers of the cache (the periodic refresh, which loads many tables at once and may get fewer back
+	// than it asked for): an entry is stored under the name the loaded metadata itself carries
+	for _, g := range w.SortedFuncs() {
+		if core.RecvNamed(g.Obj) != t || w.IsTestFile(g.Decl.Pos()) || g.Decl.Body == nil {
+			continue
+		}
+		loadsOne := false
+		for _, cs := range w.Calls(g) {
+			if cs.Static != nil && cs.Static.Name() == "LoadOne" {
+				loadsOne = true
+			}
+		}
+		if loadsOne {
+			continue
+		}
+		ginfo := g.Pkg.TypesInfo
+		ast.Inspect(g.Decl.Body, func(n ast.Node) bool {
+			as, isAs := n.(*ast.AssignStmt)
+			if !isAs || len(as.Lhs) != 1 || len(as.Rhs) != 1 {
+				return true
+			}
+			ix, isIx := ast.Unparen(as.Lhs[0]).(*ast.IndexExpr)
+			if !isIx {
+				return true
+			}
+			sel, isSel := ast.Unparen(ix.X).(*ast.SelectorExpr)
+			if !isSel || sel.Sel.Name != "cache" {
+				return true
+			}
+			cl := findCompositeLit(g, as.Rhs[0])
+			if cl == nil || litField(cl, "value") == nil {
+				return true
+			}
+			val := origin(g, litField(cl, "value"), 4)
+			ko := origin(g, ix.Index, 4)
+			// structurally: key = [ToUpper|ToLower](V.TableName) with V the very expression stored as value
+			named := func() bool {
+				resolve := func(e ast.Expr) ast.Expr {
+					for i := 0; i < 3; i++ {
+						id, isID := ast.Unparen(e).(*ast.Ident)
+						if !isID {
+							break
+						}
+						v, isVar := ginfo.Uses[id].(*types.Var)
+						if !isVar || v.IsField() {
+							break
+						}
+						defs := localDefs(g, v)
+						if len(defs) != 1 || defs[0].rng || defs[0].idx >= 0 {
+							break
+						}
+						e = defs[0].rhs
+					}
+					return ast.Unparen(e)
+				}
+				k := resolve(ix.Index)
+				if c, isCall := k.(*ast.CallExpr); isCall && len(c.Args) == 1 {
+					if f := core.Callee(ginfo, c); f != nil && f.Pkg() != nil && f.Pkg().Path() == "strings" && (f.Name() == "ToUpper" || f.Name() == "ToLower") {
+						k = resolve(c.Args[0])
+					}
+				}
+				ks, isSel := k.(*ast.SelectorExpr)
+				if !isSel || ks.Sel.Name != "TableName" {
+					return false
+				}
+				return core.ExprString(resolve(ks.X)) == core.ExprString(resolve(litField(cl, "value")))
+			}()
+			r.Sites++
+			r.Fn(g)
+			r.Check(named, "C03.format", core.ShortKey(g.Obj)+" stores reloaded metadata under the name it carries", w.Pos(as.Pos()), "key = normalised TableName of the stored metadata",
+				"the entry is stored under "+ko+", which is not the name of the metadata stored ("+val+".TableName): when the loader hands back fewer tables than it was asked for, a table's entry holds another table's columns — images, key roles and lock keys of later statements are built from the wrong table")
+			_ = ginfo
 			return true
 		})
 	}
